@@ -545,6 +545,7 @@ alignas(64) static unsigned char g_buf[SLOTS][sizeof(Instance) + 64];
 static Instance* g_m[SLOTS] = { nullptr, nullptr, nullptr, nullptr };
 #if CFG_SERIAL
 static Instance::SerialBuffer g_ser[SLOTS + 1];
+static bool g_saved[SLOTS] = { false, false, false, false };
 #endif
 
 static std::vector<std::string> splitWords(const std::string& s) { std::vector<std::string> w; std::istringstream in(s); std::string t; while (in >> t) w.push_back(t); return w; }
@@ -578,6 +579,11 @@ static void apiLine(const char* name, Instance* m, int ret, const char* bytesHex
 		}
 		if (bad) std::printf("FAIL: isActive<TState>() / stateId<TState>() disagree with the id-based forms (%%s)\n", name);
 		if (&cm.context() != &m->context()) std::printf("FAIL: context() const is not context() (%%s)\n", name);
+#if CFG_HISTORY
+		{ const Transition& pt = cm.previousTransition(); const Transition none_;
+		  if (!(pt == pt) || (pt != pt) || ((pt == none_) != !(pt != none_)))
+			std::printf("FAIL: Transition operator== / != are inconsistent on previousTransition() (%%s)\n", name); }
+#endif
 	}
 }
 static void deadLine(const char* name) {   // observation of a destroyed (automatic) instance: the canonical inactive view
@@ -632,6 +638,9 @@ int main() {
 			// instances of a finished case are abandoned (no destructor run: nothing is allocated, and their
 			// callbacks must not print outside the case); the buffers are re-filled by the next construct
 			for (unsigned i = 0; i < SLOTS; ++i) g_m[i] = nullptr;
+#if CFG_SERIAL
+			for (unsigned i = 0; i < SLOTS; ++i) g_saved[i] = false;
+#endif
 			g_script.clear(); g_occ.clear(); opIndex = 0;
 			std::printf("case %%s\n", w.size() > 1 ? w[1].c_str() : "");
 			continue;
@@ -767,6 +776,13 @@ int main() {
 			if (CFG_MANUAL || active) {
 				std::memset(&g_ser[i].data(), 0xA5 + static_cast<int>(g_op), sizeof(g_ser[i].data()));   // a reused buffer
 				m->save(g_ser[i]);
+				g_saved[i] = true;
+				// SerialBuffer::operator== / != agree with the bytes (C12: "equal buffers iff equal activity")
+				for (unsigned j = 0; j < SLOTS; ++j) if (j != i && g_saved[j]) {
+					const bool same = std::memcmp(&g_ser[i].data(), &g_ser[j].data(), sizeof(g_ser[i].data())) == 0;
+					if ((g_ser[i] == g_ser[j]) != same || (g_ser[i] != g_ser[j]) == same)
+						std::printf("FAIL: SerialBuffer operator== / != disagree with the buffers' bytes (save of i%%u vs i%%u)\n", i, j);
+				}
 				char hexbuf[2 * sizeof(g_ser[i].data()) + 1];
 				const unsigned char* b = reinterpret_cast<const unsigned char*>(&g_ser[i].data());
 				for (size_t k = 0; k < sizeof(g_ser[i].data()); ++k) std::snprintf(hexbuf + 2 * k, 3, "%%02x", b[k]);
